@@ -9,10 +9,10 @@ def run(ctx):
     ctx.forbidden_scan()
     if not ctx.build_driver():
         return
-    if ctx.lake_each(["AvoVerif.Props.C10", "AvoVerif.Props.C10Tables", "AvoVerif.Props.C10Sim"]):
+    if ctx.lake_each(["AvoVerif.Props.C10", "AvoVerif.Props.C10Tables", "AvoVerif.Props.C10Sim", "AvoVerif.Props.C10SelfMove"]):
         ctx.audit("C10")
     if ctx.tier == "thorough":
-        ctx.leanchecker(["AvoVerif.Props.C10", "AvoVerif.Props.C10Tables", "AvoVerif.Props.C10Sim"])
+        ctx.leanchecker(["AvoVerif.Props.C10", "AvoVerif.Props.C10Tables", "AvoVerif.Props.C10Sim", "AvoVerif.Props.C10SelfMove"])
     nt = lambda req, resp: req.startswith("accept-cleanup") and len(req.split(" => ")[0].split()) > len(resp.split()) + 6
     n = 2500 if ctx.tier == "quick" else 60000
     ctx.differential("c10", n, nontrivial=nt)
@@ -23,4 +23,4 @@ def run(ctx):
                             "and a semantic acceptor (result is a sublist; every deleted instruction is a jump to the very next instruction "
                             "or a plain GP self-move; every surviving instruction has the same successors after contracting the deleted ones)")
     ctx.assumptions += ["register-to-register MOV semantics (execMov) is hand-written from the Intel SDM: MOVL zero-extends, MOVQ xmm,xmm clears bits 64-127",
-                        "self-move removal is proved per instruction (no architectural effect), not as a whole-program stuttering simulation; jump and label removal are proved as lock-step simulations (pruneJumps_run, pruneLabels_step)"]
+                        "self-move removal is proved as a whole-program stuttering simulation for all executions (pruneSelfMoves_step, pruneSelfMoves_run, pruneSelfMoves_steps_bound, pruneSelfMoves_halts, pruneSelfMoves_run_entry in Props/C10SelfMove.lean) under two explicit hypotheses on the instruction semantics: hself (a deleted self-move leaves the machine state unchanged and falls through; justified per instruction on register files by prune_selfmov_ok / hself_of_execMov) and hcf (a deleted self-move is neither a branch nor a return); jump and label removal are proved as lock-step simulations (pruneJumps_run, pruneLabels_step)"]
